@@ -1,6 +1,7 @@
 import ZipVerif.Lemmas.Layers
 import ZipVerif.Lemmas.EntryBridge
 import ZipVerif.Lemmas.EntryBridgeCrypto
+import ZipVerif.Lemmas.EntryBridgeAes
 import ZipVerif.Lemmas.ShortRead
 /-
 C09 — Results do not depend on how I/O is chunked.
@@ -409,6 +410,109 @@ theorem archive_entry_chunk_independent_zipcrypto {σ₁ σ₂ : Type} (P : Mode
   have hd₂ := Model.Layers.crc_denotes_nz _ data.crc32 false (hc.chunk _ _ hden₂)
   obtain ⟨hb, ht⟩ := read_loops_agree hd₁ hd₂ r₁ r₂
   exact ⟨hb, ht, q₁⟩
+
+/-- **Bytes of a WinZip-AES entry do not depend on chunking - seekable reader, every accepted byte string.**
+The reader model with the crate's own AES layer (`Model.cryptoExt`: `validate` and a read-to-end over a
+never-short byte list, one fixed pair of buffers) answers `by_index_decrypt(i, pw)` on an entry with the
+encryption flag and an AES extra record with `r`.  Two readers holding the entry's stored bytes with two
+arbitrary short-read schedules `sched₁`, `sched₂`:
+
+* `r = Err(InvalidPassword)`: `AesReader::validate` answers `Ok(None)` over both;
+* `r = Ok(file)` with read-to-end result `res`: `validate` accepts over both and hands out the readers
+  `aesReader .. sc₁` / `.. sc₂`; `AesVerdict` holds for both (code right: `AesReaderValid` DENOTES the
+  decryption of the payload, for every schedule of caller buffers; code wrong / bytes missing: `res` is the I/O
+  error and NO run reaches a successful end-of-file, `Aes.NeverEof`); and when the code is right, two read
+  loops over `Crc32Reader(decoder(AesReaderValid(..)))` with two arbitrary buffer schedules (zeros included)
+  return the same bytes and end the same way, namely as `res` says - under `CodecFor` for the decoder on the
+  DECRYPTED stream (a theorem for Stored: `codecFor_available`). -/
+theorem archive_entry_chunk_independent_aes (P : Model.Aes.AesPrims) (hW : P.WF)
+    (decode : Model.Method → Bytes → Out Bytes) (bs : Bytes)
+    {fa₀ : Option Nat} {a : Model.Archive} {d₀ : Model.Dev}
+    (hopen : Model.openArchive fa₀ (Model.Dev.ofBytes bs) = (.ok a, d₀))
+    {i : Nat} {data : Model.FileData} (hfile : a.files[i]? = some data)
+    (henc : data.encrypted = true) {mode : Model.AesMode} {vv : Model.AesVendorVersion}
+    (haes : data.aesMode = some (mode, vv)) {pw : Bytes} {fa : Option Nat}
+    {d' : Model.Dev} {r : Model.PwResult (Nat × Out Bytes)}
+    (h : Model.byIndexRead (Model.cryptoExt P decode) a i (some pw) fa d₀ = (.ok r, d')) :
+    ∃ ds L, Model.Aes.dataLength (Model.aesModeView mode) data.compressedSize.toNat = some L ∧
+    ∀ sched₁ sched₂ : List Nat,
+      (r = .invalidPassword →
+        (Model.Aes.validate P Model.Aes.listSrc (Model.aesModeView mode) (some L)
+          ⟨(bs.drop ds).take data.compressedSize.toNat, sched₁⟩ pw).1 = .ok none ∧
+        (Model.Aes.validate P Model.Aes.listSrc (Model.aesModeView mode) (some L)
+          ⟨(bs.drop ds).take data.compressedSize.toNat, sched₂⟩ pw).1 = .ok none) ∧
+      (∀ res, r = .ok (ds, res) → ∃ sc₁ sc₂,
+        Model.Aes.validate P Model.Aes.listSrc (Model.aesModeView mode) (some L)
+            ⟨(bs.drop ds).take data.compressedSize.toNat, sched₁⟩ pw =
+          (.ok (some (Model.aesReader P pw mode ((bs.drop ds).take data.compressedSize.toNat) L sc₁)),
+            ⟨Model.aesBody mode ((bs.drop ds).take data.compressedSize.toNat), sc₁⟩) ∧
+        Model.Aes.validate P Model.Aes.listSrc (Model.aesModeView mode) (some L)
+            ⟨(bs.drop ds).take data.compressedSize.toNat, sched₂⟩ pw =
+          (.ok (some (Model.aesReader P pw mode ((bs.drop ds).take data.compressedSize.toNat) L sc₂)),
+            ⟨Model.aesBody mode ((bs.drop ds).take data.compressedSize.toNat), sc₂⟩) ∧
+        Model.AesVerdict P (Model.cryptoExt P decode) data.method data.crc32 (vv == .ae2) pw mode
+          ((bs.drop ds).take data.compressedSize.toNat) L
+          (Model.aesReader P pw mode ((bs.drop ds).take data.compressedSize.toNat) L sc₁) res ∧
+        Model.AesVerdict P (Model.cryptoExt P decode) data.method data.crc32 (vv == .ae2) pw mode
+          ((bs.drop ds).take data.compressedSize.toNat) L
+          (Model.aesReader P pw mode ((bs.drop ds).take data.compressedSize.toNat) L sc₂) res ∧
+        (L + Model.Aes.AUTH_CODE_LENGTH ≤
+            (Model.aesBody mode ((bs.drop ds).take data.compressedSize.toNat)).length →
+          Model.aesCodeOk P pw mode ((bs.drop ds).take data.compressedSize.toNat) L →
+          ∃ pt cfin, Model.Aes.cryptBytes P (Model.aesKey P pw mode ((bs.drop ds).take data.compressedSize.toNat))
+              Model.Aes.CtrState.new
+              ((Model.aesBody mode ((bs.drop ds).take data.compressedSize.toNat)).take L) = .ok (pt, cfin) ∧
+          ∀ (c : Codec), Model.CodecFor (Model.cryptoExt P decode) data.method c pt →
+          ∀ (reqs₁ reqs₂ : List Nat) (b₁ b₂ : Bytes) (t₁ t₂ : Term)
+            (e₁ e₂ : c.St (Model.Aes.Valid Model.Aes.ListSrc) × UInt32),
+            readToEnd (Model.entryPipelineAes c P Model.Aes.listSrc data.crc32 (vv == .ae2))
+              (c.init (Model.aesReader P pw mode ((bs.drop ds).take data.compressedSize.toNat) L sc₁), Crc32.init)
+              reqs₁ = some (b₁, t₁, e₁) →
+            readToEnd (Model.entryPipelineAes c P Model.Aes.listSrc data.crc32 (vv == .ae2))
+              (c.init (Model.aesReader P pw mode ((bs.drop ds).take data.compressedSize.toNat) L sc₂), Crc32.init)
+              reqs₂ = some (b₂, t₂, e₂) →
+            b₁ = b₂ ∧ t₁ = t₂ ∧ res = Model.outOfLoop (b₁, t₁))) := by
+  have hbuf : d₀.buf = bs := by
+    have := Model.openArchive_readOnly.elim fa₀ (Model.Dev.ofBytes bs)
+    rw [hopen] at this; exact this
+  obtain ⟨ds, _, L, hdl, _, _, hA⟩ := Model.entry_bridge_aes hW hfile henc haes h
+  rw [hbuf] at hA
+  refine ⟨ds, L, hdl, ?_⟩
+  intro sched₁ sched₂
+  obtain ⟨hA1, hA2⟩ := hA sched₁
+  obtain ⟨hB1, hB2⟩ := hA sched₂
+  refine ⟨fun hinv => ⟨(hA1 hinv).2, (hB1 hinv).2⟩, fun res hres => ?_⟩
+  obtain ⟨_, sc₁, hv₁, hV₁⟩ := hA2 res hres
+  obtain ⟨_, sc₂, hv₂, hV₂⟩ := hB2 res hres
+  refine ⟨sc₁, sc₂, hv₁, hv₂, hV₁, hV₂, ?_⟩
+  intro hlen hcode
+  obtain ⟨pt, cfin, hpt, hres₁, hden₁⟩ := hV₁.intact hlen hcode
+  obtain ⟨pt', cfin', hpt', _, hden₂⟩ := hV₂.intact hlen hcode
+  have hpp : pt' = pt := by
+    rw [hpt] at hpt'
+    injection hpt' with hpt'
+    injection hpt' with hpt' _
+    exact hpt'.symm
+  subst hpp
+  refine ⟨pt', cfin, hpt, ?_⟩
+  intro c hc reqs₁ reqs₂ b₁ b₂ t₁ t₂ e₁ e₂ r₁ r₂
+  have hd₁ := Model.Layers.crc_denotes_nz _ data.crc32 (vv == .ae2) (hc.chunk _ _ hden₁)
+  have hd₂ := Model.Layers.crc_denotes_nz _ data.crc32 (vv == .ae2) (hc.chunk _ _ hden₂)
+  obtain ⟨hb, ht⟩ := read_loops_agree hd₁ hd₂ r₁ r₂
+  refine ⟨hb, ht, ?_⟩
+  rw [hres₁]
+  exact Model.layer_eq_decode_crc_ae2 (Model.cryptoExt P decode) data.method c pt' data.crc32 (vv == .ae2) hc _ _
+    hden₁ reqs₁ r₁
+
+/-- The hypotheses of `archive_entry_chunk_independent_aes` on a concrete archive (`Model.aesExArchive`: accepted,
+entry 0 with flag and AES record, handed out for the password "pw" with data start 42), and its conclusion
+observed under two short-read schedules of the byte source and two buffer schedules (zeros included). -/
+example :
+    Model.aesOpenRead Model.aesExArchive [0x70, 0x77] [0, 2] [2, 0, 1, 9, 9] =
+      some (42, some [1, 2, 3, 4, 5], some [1, 2, 3, 4, 5]) ∧
+    Model.aesOpenRead Model.aesExArchive [0x70, 0x77] [] [1, 1, 0, 1, 1, 1, 4] =
+      some (42, some [1, 2, 3, 4, 5], some [1, 2, 3, 4, 5]) ∧ Model.exPrims.WF :=
+  ⟨by decide +kernel, by decide +kernel, Model.exPrims_wf⟩
 
 /-- `CodecFor` for Stored entries is a theorem (no decoder), for compressed entries whose stored bytes
 are an encoder's output it follows from `Codec.IntactOK`. -/
